@@ -134,6 +134,10 @@ def write_fixture(wd):
         rfiles.write_tum(os.path.join(wd, name + ".txt"), t.stamps, t.ps, t.Rs)
         rfiles.write_euroc(os.path.join(wd, name + ".csv"),
                            [int(round(x * 1e9)) for x in t.stamps], t.ps, t.Rs)
+        # the same data without the title line (plain estimator output)
+        rfiles.write_euroc(os.path.join(wd, name + "_nh.csv"),
+                           [int(round(x * 1e9)) for x in t.stamps], t.ps, t.Rs,
+                           header=False)
         # the estimate recorded with a clock that is 1 s behind
         # (to be used with --t_offset 1.0)
         if name == "est1":
@@ -225,6 +229,7 @@ DIMS = [
 ]
 FORMAT_DIMS = [
     ("fmt", ["kitti", "euroc"]),
+    ("header", [True, False]),
     ("nfiles", [1, 2]),
     ("downsample", [None, 4]),
     ("merge", [False, True]),
@@ -240,12 +245,15 @@ def argv_of(pt):
     fmt = pt.get("fmt", "tum")
     ext = {"tum": ".txt", "kitti": ".kit", "euroc": ".csv"}[fmt]
     files = ["est1" + ext] + (["est2" + ext] if pt["nfiles"] == 2 else [])
+    if fmt == "euroc" and pt.get("header") is False:
+        files = [f[:-len(ext)] + "_nh" + ext for f in files]
     if pt.get("names") == "affix":
         files = [AFFIX[f[:-len(ext)]] + ext for f in files]
     argv = [fmt] + files
     al = pt["align"]
     if al != "none":
-        argv += ["--ref", "ref" + ext]
+        argv += ["--ref", "ref" + ("_nh" if fmt == "euroc" and pt.get(
+            "header") is False else "") + ext]
     if pt.get("downsample"):
         argv += ["--downsample", str(pt["downsample"])]
     if pt.get("motion_filter"):
@@ -282,6 +290,8 @@ def expected(pt):
     ref, est1, est2 = load_model(fmt)
     n1, n2 = ("est1", "est2") if pt.get("names") != "affix" else (
         AFFIX["est1"], AFFIX["est2"])
+    if fmt == "euroc" and pt.get("header") is False:
+        n1, n2 = n1 + "_nh", n2 + "_nh"
     trajs = {n1: est1}
     if pt["nfiles"] == 2:
         trajs[n2] = est2
@@ -334,7 +344,8 @@ def expected(pt):
                  for k, t in trajs.items()}
     out = dict(trajs)
     if use_ref:
-        out["ref"] = ref
+        out["ref_nh" if fmt == "euroc" and pt.get("header") is False
+            else "ref"] = ref
     if pt.get("project"):
         out = {k: project_model(t, pt["project"]) for k, t in out.items()}
     return out
@@ -413,6 +424,12 @@ def run_point(pt):
         return ["time association with the reference: %s" % v], "exported"
     if refusal is None and exp_kind == "tum" and fmt == "kitti":
         refusal = pl.Refusal("tum-export-without-stamps")
+    if exp is not None:
+        # a second run in the same directory: exports left over from an
+        # earlier run are there already (warnings are off: they get replaced)
+        for name in exp:
+            with open("%s.%s" % (name, exp_kind), "w") as f:
+                f.write("# stale export of an earlier run\n1 2 3\n")
     res = cli.run_cli("traj", argv)
     msgs = []
     if refusal is not None:
